@@ -151,6 +151,9 @@ func C09(r *Run) *core.Report {
 					}
 					e := sym.Mk("field", "e", ev.Stored)
 					okE := e.Op == "opq" && strings.HasPrefix(e.K, "Exp") && len(e.Args) == 1 && normTerm(e.Args[0]) == wantArg
+					if !okE && e.IsZero() && canonExp(r, "opq:Exp("+wantArg+")") == "zero" {
+						okE = true // the TTL computation of a non-positive constant other than the sentinel is 0: stored directly
+					}
 					if !okE && bad == "" {
 						bad = fmt.Sprintf("the item stored at %s carries expiration %s; it must be the TTL computation of this call applied to %s (path: %s)", ev.Pos, stripOrd(normTerm(e)), wantArg, sym.DescribePC(p.PC))
 					}
